@@ -172,6 +172,10 @@ def run_unit(unit_dir, tier, relock=False, known_ids=()):
         if relock:
             open(lock, 'w').write('\n'.join(sorted(set(found))) + '\n')
         locked = set(open(lock).read().split('\n')) if os.path.exists(lock) else set()
+        # specifications the assembler adds by itself from prelude/int_ops.vrs are a fixed, reviewed list: they count as locked
+        ap = os.path.join(VERIF, 'prelude', 'int_ops.vrs')
+        if os.path.exists(ap):
+            locked |= set(l.strip() for l in open(ap).read().split('\n') if l.startswith('pub assume_specification'))
         for a in found:
             if a.startswith('FORBIDDEN'):
                 res['undecided'].append(a)
